@@ -50,6 +50,10 @@ def merge_line(k, pairs):
     return '(bitemp merge %s %s)' % (enc(stamp(2 * k)), enc_ts(pairs))
 
 
+def mergelist_line(batch):
+    return '(bitemp mergelist (L%s))' % ''.join(' (T %s %s)' % (enc(stamp(2 * k)), enc_ts(pairs)) for k, pairs in batch)
+
+
 def read_line(t2, what):
     return '(bitemp read %s I:%d)' % ('N' if t2 is None else enc(stamp(t2)), what)
 
@@ -141,8 +145,28 @@ def history_case(rng, ndates, ordered, idem):
     return dict(tag=tag, lines=lines, ordered=ordered)
 
 
+def batch_case(rng, ndates):
+    """the same kind of history, but consecutive versions handed to ONE bi_merge call as a list"""
+    nver = rng.choice([2, 3, 4, 5, 6])
+    hist = gen_history(rng, ndates, nver, True, nonempty_start=rng.random() < 0.8)
+    T = read_times(hist)
+    lines = []
+    i = 0
+    while i < len(hist):
+        k = rng.choice([0, 1, 2, 2, 3]) if i > 0 or rng.random() < 0.3 else rng.choice([1, 2, 3])
+        batch = hist[i:i + k]
+        i += k
+        lines.append(mergelist_line(batch))
+        for t in (T if i >= len(hist) else rng.sample(T, min(len(T), 2))):
+            lines += [read_line(t, -1), spec_line(t), read_line(t, 0)]
+    return dict(tag='h%d-batches' % ndates, lines=lines, ordered=True)
+
+
 def generate(rng, tier):
-    n = 25 if tier == 'quick' else 400
+    n = 20 if tier == 'quick' else 400
+    for nd in (3, 5, 25):
+        for _ in range(max(4, n // 5)):
+            yield batch_case(rng, nd)
     for nd in (3, 5, 25):
         for _ in range(n):
             yield history_case(rng, nd, True, rng.random() < 0.35)
@@ -219,6 +243,10 @@ def run_line(state, sx):
         st = proto.dec(args[0])
         state['store'] = bi_merge(state['store'], Bi(_series(_dec_ts(args[1])), st))
         return 'ok ' + enc_store(state['store'])
+    if op == 'mergelist':
+        news = [Bi(_series(_dec_ts(item[2])), proto.dec(item[1])) for item in args[0][1:]]
+        state['store'] = bi_merge(state['store'], news)
+        return 'ok N' if state['store'] is None else 'ok ' + enc_store(state['store'])
     if op in ('read', 'spec'):
         asof = None if args[0] == 'N' else proto.dec(args[0])
         what = proto.dec(args[1]) if op == 'read' else -1
@@ -251,8 +279,9 @@ def _ordered(case):
     last = None
     for l in case['lines']:
         sx = proto.parse(l)
-        if sx[1] == 'merge':
-            t = int(sx[2][2:])
+        stamps = [sx[2]] if sx[1] == 'merge' else [item[1] for item in sx[2][1:]] if sx[1] == 'mergelist' else []
+        for a in stamps:
+            t = int(a[2:])
             if last is not None and t < last:
                 return False
             last = t
